@@ -76,6 +76,7 @@ type cell struct {
 	status string // ok | noparse | notypecheck
 	errmsg string
 	expr   string // emitted schema expression of field F (layout A)
+	raw    string // … as text, exactly as written
 	chain  string // token form of ctor + chain
 	field  string // field name in layout B
 	g, r   []string
@@ -94,6 +95,7 @@ type quoteCell struct {
 var (
 	repoFlag = flag.String("repo", "/repo", "library tree")
 	hdirFlag = flag.String("hdir", "", "harness module dir (for the replace of verifharness)")
+	mtOnly   = flag.Bool("methodsonly", false, "write methodtable.json (the library's method table, by reflection) and exit")
 )
 
 func die(format string, a ...any) {
@@ -134,6 +136,11 @@ func main() {
 	o, err := hx.NewOut(c.OutDir)
 	if err != nil {
 		die("%v", err)
+	}
+	writeMethodTable(filepath.Join(c.OutDir, "methodtable.json"), *repoFlag)
+	if *mtOnly {
+		o.Close(nil)
+		return
 	}
 	rng := hx.NewRng(c.Seed)
 	tmp, err := os.MkdirTemp("", "c13-")
@@ -206,6 +213,14 @@ func main() {
 	for _, ce := range cells {
 		o.Emit(fmt.Sprintf("c13 compile %s %s # struct C%d type=%s tag=%q expr=%s %s", ce.fty, ce.rules, ce.k, ce.gotype, ce.tag, ce.expr, ce.errmsg), ce.status)
 		o.Count("compile:" + ce.status)
+	}
+	for _, ce := range cells { // round 4: emitted text and compile status of every matrix cell against the Lean emitter + typing judgement
+		if ce.raw == "" {
+			continue
+		}
+		o.Emit(fmt.Sprintf("c13 texpr %s %s %s C%d # type C%d struct { F %s %s } -> %s   %s", ce.gotype, ruleNames(ce.tag), runes(ce.tag), ce.k, ce.k, ce.gotype, structTag(ce.tag), ce.raw, ce.errmsg),
+			"st="+ce.status+" expr="+runes(ce.raw))
+		o.Count("texpr:" + ce.status)
 	}
 	for _, ce := range cells {
 		if ce.status != "ok" || ce.g == nil {
@@ -452,6 +467,7 @@ func snake(name string) string {
 func analyseA(dir string, cells []*cell, quotes []*quoteCell) {
 	for _, ce := range cells {
 		path := filepath.Join(dir, fmt.Sprintf("c%d_gen.go", ce.k))
+		ce.raw = rawExprs(path)["F"]
 		exprs, fset, err := fieldExprs(path)
 		if err != nil {
 			ce.status, ce.errmsg = "noparse", "err="+strconv.Quote(firstLine(err.Error()))
